@@ -18,21 +18,19 @@ MANIFEST = dict(
           "between two clear_cache calls no (cache, remaining length) pair is stored twice, all keys are (cache < 3, length <= body "
           "length); C07_linear -- hence at most 3*(n+1) logged evaluations in a body of n tokens; C07_memo_miss_stores -- for "
           "parse_primary/parse_expr every miss is logged and stored (errors too), so the log IS the list of their evaluations. "
-          "REFUTED AS STATED for parse_method_call: it stores successes only (`?` returns before set_cache), so a FAILING method-call "
-          "parse is evaluated again at the same position (C07_once_method_call_refuted, witness body `a`; "
-          "C07_method_call_failure_not_stored / _success_stored give what does hold: at most one SUCCESSFUL evaluation per position). "
-          "The witness is replayed against the real code on every run (miss log of the counting context). "
-          "MEASURED, not proved: total work beyond the number of cache evaluations (cost of the un-memoised glue, failing method-call "
-          "re-evaluations): get_cache calls on nesting towers of depth 30/60/120 must fit a*n+b, failing method-call evaluations per "
-          "token are reported. Proof route: MemoSim.v (relation StepM/Sim: same result, result positions are suffixes of the input, cache "
+          "C07_method_call_is_memo / C07_method_call_failure_stored: since /repo commit c0beeea parse_method_call stores failures as "
+          "well, so 'at most once' holds for all three caches (regression witness body `a`: exactly one miss and one store at key "
+          "(2,1), replayed against the real code on every run); C07_old_method_call_refuted keeps the refutation of the step before "
+          "that commit (memo_ok_only: a failing method-call parse was evaluated again at the same position). "
+          "MEASURED, not proved: total work beyond the number of cache evaluations (cost of the un-memoised glue): get_cache calls on "
+          "nesting towers of depth 30/60/120 must fit a*n+b. Proof route: MemoSim.v (relation StepM/Sim: same result, result positions are suffixes of the input, cache "
           "invariant Sound kept, diagnostics set-equal, logged keys below (length, rank) -- one lemma per combinator; Sound: every entry "
           "is the result of the memo-off parser of that cache at EVERY sufficient fuel level on THE suffix of the body of that length -- "
           "suffixes are determined by their length -- and its diagnostics are already recorded), MemoGrammar.v (one lemma per grammar "
           "function by the tactic stac, knot gram_Sim), MemoProofs.v (parse_method_body establishes the invariant by clear_cache; the "
           "declaration parsers are proved in an environment whose invariant says nothing about cache entries, so no memoised parser is "
           "reachable from them except through parse_method_body)."),
-    note="Partial: linear WORK is proved as '<= 3(n+1) stored evaluations per body, each key at most once'; the cost between evaluations and the "
-         "un-stored failing parse_method_call evaluations are measured. Body boundaries are not observable in the model's log, so C07_once is "
+    note="Partial: linear WORK is proved as '<= 3(n+1) evaluations per body, each key at most once'; the cost between evaluations is measured. Body boundaries are not observable in the model's log, so C07_once is "
          "stated for parse_method_body from every admissible context rather than on the whole-file log. Trusted: Coq kernel, extraction, harness "
          "(CountingContext/ForgetfulContext implement IParserContext), the hand-written model PComb.v/Grammar.v (validated by C04's and this "
          "differential run).",
@@ -49,7 +47,6 @@ ASSUMPTIONS = [
     "token type, keyword and node-kind tables are regenerated from /repo/src on every run (translators T1, T2, T5)",
 ]
 
-FINDING_ID = "method-call-failure-reevaluated"
 WITNESS = "B:" + pc.enc("a")
 
 
@@ -317,53 +314,45 @@ def nontrivial(case):
 
 def miss_pass(ctx, cases, cov):
     hb = diff.Engines.harness()
-    listed = any(f.get("id") == FINDING_ID for f in ctx.open_findings())
     bt = [c for c in cases if c[0] in "BT"]
     outs = core.run_lines(hb, "memomiss", bt)
-    worst_dup2, worst_fail2, n_dup2 = 0.0, 0.0, 0
+    n_miss = 0
     for c, o in zip(bt, outs):
-        p = o.split("|")
-        bad = None
         if o.startswith("SKIPPED"):
             continue
+        p = o.split("|")
+        bad = None
         if len(p) != 8:
             bad = "miss-log run did not return normally: " + o[:200]
         else:
-            n, sets, misses, hits, dup01, dup2, unst01, fail2 = map(int, p)
-            if dup01:
-                bad = "parse_primary / parse_expr evaluated %d times too often: a cache miss on a key already missed in this body" % dup01
-            elif unst01:
-                bad = "%d evaluations of parse_primary / parse_expr were not stored" % unst01
-            else:
-                if dup2:
-                    n_dup2 += 1
-                    if listed:
-                        ctx.known("%s: parse_method_call re-evaluates failing calls at the same position (not stored)" % FINDING_ID)
-                worst_dup2 = max(worst_dup2, dup2 / (n + 1.0))
-                worst_fail2 = max(worst_fail2, fail2 / (n + 1.0))
+            n, sets, misses, hits, dup, unstored, m2, s2 = map(int, p)
+            n_miss += misses
+            if dup:
+                bad = ("a memoised parser was evaluated more than once at one position: %d cache misses on a key already missed in "
+                       "this body" % dup)
+            elif unstored:
+                bad = "%d evaluations of a memoised parser were not stored" % unstored
         if bad:
             path = core.write_replay(ctx.pid, ctx.seed, {"engine": "memomiss", "case": c, "case_readable": describe(c)[:2000],
                                                        "observed": o[:2000], "expected": bad})
             v = core.Violation(bad, path, True)
             v.coverage = cov
             raise v
-    # the refutation witness must reproduce against the real code (the model must follow the code)
-    w = core.run_lines(hb, "memomiss", [WITNESS], shards=1)[0].split("|")
-    if len(w) != 8 or int(w[5]) < 1:
-        path = core.write_replay(ctx.pid, ctx.seed, {"broken": "C07_once_method_call_refuted no longer reproduces on the real code: "
-                                                             "the model of parse_method_call (memo_ok_only) must follow the code",
-                                                   "case": WITNESS, "observed": "|".join(w)})
-        v = core.Violation("refutation witness does not reproduce", path, False)
+    # regression (C07_method_call_failure_stored): on the body `a` the failing method call is evaluated and stored exactly once
+    w = core.run_lines(hb, "memomiss", [WITNESS], shards=1)[0]
+    wf = w.split("|")
+    if len(wf) != 8 or [wf[i] for i in (0, 1, 2, 4, 5, 6, 7)] != ["1", "3", "3", "0", "0", "1", "1"]:
+        bad = "body `a`: expected three evaluations, exactly one miss and one store at key (2,1), no repeated and no unstored evaluation"
+        path = core.write_replay(ctx.pid, ctx.seed, {"engine": "memomiss", "case": WITNESS, "case_readable": describe(WITNESS),
+                                                   "observed": w, "expected": bad})
+        v = core.Violation(bad, path, True)
         v.coverage = cov
         raise v
     cov["miss_log_cases"] = len(bt)
-    cov["method_call_refutation"] = {
-        "theorem": "C07_once_method_call_refuted", "witness": "body `a`", "reproduced_on_real_code": True,
-        "witness_observation(n|sets|misses|hits|dup01|dup2|unstored01|fail2)": "|".join(w),
-        "cases_with_repeated_failing_method_call_evaluation": n_dup2,
-        "max_repeated_failing_evaluations_per_token_position": round(worst_dup2, 3),
-        "max_failing_evaluations_per_token_position": round(worst_fail2, 3),
-        "proposed_known_finding_id": FINDING_ID, "listed": listed}
+    cov["miss_log_evaluations"] = n_miss
+    cov["method_call_regression"] = {
+        "theorems": ["C07_method_call_failure_stored", "C07_old_method_call_refuted"], "witness": "body `a`",
+        "observation(n|sets|misses|hits|dup|unstored|m2|s2)": w, "fixed_by": "/repo c0beeea"}
 
 
 def tower_fit(ctx, cov):
@@ -459,9 +448,8 @@ def correspondence(ctx, broken_obligations=()):
                    % (4 if ctx.quick else 5, pc.TOK_BODY, "" if ctx.quick else "; one bare body also for all sequences of length 6", TOWER_DEPTHS))
     cov["exhaustive"] = True
     cov["samples"] = [describe(cases[40000])[:160], describe(cases[hist["tok_one_body"] + 40000])[:200], describe(cases[-3])[:200]]
-    cov["refuted"] = ["C07_once_method_call_refuted"]
-    cov["measured_not_proved"] = ["get_cache calls and stored evaluations on towers fit a*n+b (depth 30/60/120)",
-                                  "failing parse_method_call evaluations per token position"]
+    cov["regression_of_fixed_refutation"] = ["C07_old_method_call_refuted"]
+    cov["measured_not_proved"] = ["get_cache calls and stored evaluations on towers fit a*n+b (depth 30/60/120)"]
     return cov
 
 
